@@ -17,6 +17,7 @@ open CnvVerif
 
 /-- the kinds of exception the reader raises -/
 inductive VErr | indexError | keyError | assertionError | valueError
+  | typeError   -- `record.samples[None]` (a MuTect header naming no tumour sample, Model/VcfPairs.lean)
 deriving Repr, DecidableEq, Inhabited
 
 /-- a `sample_id` / `normal_id` argument: `None`, a name, or an integer position -/
